@@ -36,13 +36,6 @@ theorem docEnv_findDef (s : SchemaD) (n : String) : (docEnv s).findDef n = (s.fi
 def floatOK (r : String) : Bool :=
   finiteRepr r && (match floatLit r with | .float _ f => f == r | .int _ f => f == r | _ => false)
 
-/-- **NoH3**: a custom-scalar string default that Python's `float()` cannot parse (the printer would re-guess it as a
-    number): conservatively, a string without digits that is not a spelling of inf/nan — or a plain integer text -/
-def notFloatLike (x : String) : Bool :=
-  let cs := ((x.toList.dropWhile isWs).reverse.dropWhile isWs).reverse.map Char.toLower
-  isIntText x || (!(cs.any Char.isDigit) &&
-    !(["inf", "+inf", "-inf", "nan", "+nan", "-nan", "infinity", "+infinity", "-infinity"].map String.toList).contains cs)
-
 /-- canonical NON-NULL value of the named leaf type `nm` -/
 def leafOK (s : SchemaD) (nm : String) (v : J) : Bool :=
   if nm == "Boolean" then (match v with | .bool _ => true | _ => false)
@@ -54,7 +47,7 @@ def leafOK (s : SchemaD) (nm : String) (v : J) : Bool :=
     | none => false
     | some t =>
       match t.kind with
-      | .scalar => (match v with | .bool _ => true | .str x => notFloatLike x | _ => false)
+      | .scalar => (match v with | .bool _ => true | .str _ => true | _ => false)
       | .enum =>
         (match v with
          | .str x => (match t.values.find? (fun ev => jEq ev.value (.str x)) with | some ev => ev.name == x | none => false)
@@ -157,8 +150,11 @@ theorem leaf_roundtrip_doc (s : SchemaD) (nm : String) (v : J) (h : leafOK s nm 
         by_cases hx : isIntText x = true
         · exact ⟨.int x (x ++ ".0"), by simp [valueLit, hnb, ht, hk, customLit, hx],
             by simp [valueFromAst, hnb, hadd, hdef, hdk, scalarLiteral, pure], by simp⟩
-        · exact ⟨.str x, by simp [valueLit, hnb, ht, hk, customLit, hx],
-            by simp [valueFromAst, hnb, hadd, hdef, hdk, scalarLiteral, pure], by simp⟩
+        · by_cases hfr : isFloatRepr x = true
+          · exact ⟨.float x x, by simp [valueLit, hnb, ht, hk, customLit, hx, hfr],
+              by simp [valueFromAst, hnb, hadd, hdef, hdk, scalarLiteral, pure], by simp⟩
+          · exact ⟨.str x, by simp [valueLit, hnb, ht, hk, customLit, hx, hfr],
+              by simp [valueFromAst, hnb, hadd, hdef, hdk, scalarLiteral, pure], by simp⟩
     · -- enum
       have hdk : (typeToDef s t).kind = .enum := hk
       cases v <;> simp at h
@@ -533,8 +529,8 @@ private theorem rt_all (s : SchemaD) : ∀ n, RT s n := by
     custom scalars, enums, input objects (nested, recursive), `null`, non-null and list wrappers of any depth — the
     literal the schema printer writes for `v` is read back by the builder, over the printed document, as `v` itself.
     Excluded, each by a named predicate inside `wtB`: input-object values that omit a defaulted field (`skippable`,
-    finding H2 — refuted below), non-canonical floats (`floatOK`, H8), float-looking custom-scalar strings
-    (`notFloatLike`, H3). -/
+    finding H2 — refuted below), non-canonical floats (`floatOK`, H8). (Finding H3 — float-looking custom-scalar strings — is FIXED in /repo 889f979:
+    no exclusion is needed any more.) -/
 theorem default_roundtrip_doc (s : SchemaD) (n : Nat) (v : J) (ty : Ty) (h : wtB s n v ty = true) :
     ∃ lit, valueLit s n v ty = some lit ∧ valueFromAst (docEnv s) n lit ty = some (some v) :=
   let ⟨lit, h1, h2, _⟩ := (rt_all s n).1 v ty h
